@@ -175,6 +175,9 @@ CFGS = [
     ([['moved', 128], ['bypassed', 128], ['lost_waiting', 140]], ['none', (0, 255)]),
     ([], ['none', 0x77, (0x70, 0x7F)]),
     ([['not_started', 254]], ['none']),
+    # address 0 is a valid address (and falsy in Python)
+    ([['bypassed', 0x20]], [0, 0x50]),
+    ([['bypassed', 0], ['bypassed', 0x21]], ['none', 0x50, (0, 0)]),
 ]
 
 
